@@ -179,53 +179,3 @@ Print Assumptions C05_peak_integrals.
 Print Assumptions C05_simpson48_sinc.
 Print Assumptions C05_simpson_default_panels.
 Print Assumptions C05_simpson_model_is_source.
-
-(* ---- composition with the generated kinematics / wrappers / grid-resolution / simple phase-matching models (Proofs/Compose_*.v) ---- *)
-From SpdVerif Require Import Base.Vec3 Gen.PMSimple Proofs.Compose_pmsimple.
-
-(* math::sinc as translated from the source (Gen/PMSimple.v) is the sinc in which clause 3 and the plane-wave limit are stated *)
-Theorem C05_sinc_is_generated : forall x, sinc_gen x = sinc x.
-Proof. exact pms_sinc. Qed.
-Print Assumptions C05_sinc_is_generated.
-
-(* phasematch_sinc (src/phasematch/coincidences.rs; the "no fiber coupling" approximation of the crate, public API), translated with
-   dk = SPDC::delta_k(omega_s, omega_i), L the crystal length and (wx, wy) the pump waist: sinc(Delta k_z L / 2) times the transverse
-   Gaussian, real *)
-Theorem C05_phasematch_sinc_form : forall (dk : R -> R -> vec) L wx wy ws wi,
-  phasematch_sinc_gen dk L wx wy ws wi =
-  (sinc (L / 2 * vz (dk ws wi)) * exp (- ((vx (dk ws wi) * wx)² + (vy (dk ws wi) * wy)²) / 2), 0).
-Proof. exact pms_phasematch_sinc. Qed.
-Print Assumptions C05_phasematch_sinc_form.
-
-(* the plane-wave limit of the fibre-coupled integrand (C05_plane_wave_limit_partial: no walk-off, no apodization) has the modulus
-   of the prefactor 4 / sqrt(Sigma_x Sigma_y) times |phasematch_sinc| taken with zero pump waist, at ff = Delta k_z L / 2 *)
-Theorem C05_plane_wave_limit_is_phasematch_sinc : forall (dk : R -> R -> vec) L wx wy ss si psi_h ee ws wi,
-  0 < ss -> 0 < si -> 0 <= wx -> 0 <= wy ->
-  Cmod (Cmult (RtoC (1 / 2)) (Cint (zd_closure wx wy ss si psi_h ee (L * 0.5 * vz (dk ws wi)) 0) (-1) 1)) =
-  4 / sqrt (Sig ss si wx * Sig ss si wy) * Rabs (fst (phasematch_sinc_gen dk L 0 0 ws wi)).
-Proof. exact pms_sinc_is_plane_wave_limit. Qed.
-Print Assumptions C05_plane_wave_limit_is_phasematch_sinc.
-
-(* both approximations are real, of modulus at most 1 ... *)
-Theorem C05_phasematch_approximations_bounded : forall (dk : R -> R -> vec) L wx wy ws wi,
-  snd (phasematch_sinc_gen dk L wx wy ws wi) = 0 /\ Rabs (fst (phasematch_sinc_gen dk L wx wy ws wi)) <= 1 /\
-  snd (phasematch_gaussian_gen dk L ws wi) = 0 /\ 0 < fst (phasematch_gaussian_gen dk L ws wi) <= 1.
-Proof. exact pms_phasematch_bounded. Qed.
-Print Assumptions C05_phasematch_approximations_bounded.
-
-(* ... and equal to 1 at perfect phase matching *)
-Theorem C05_phasematch_approximations_peak : forall (dk : R -> R -> vec) L wx wy ws wi, dk ws wi = (0, 0, 0) ->
-  phasematch_sinc_gen dk L wx wy ws wi = (1, 0) /\ phasematch_gaussian_gen dk L ws wi = (1, 0).
-Proof. exact pms_phasematched. Qed.
-Print Assumptions C05_phasematch_approximations_peak.
-
-(* gaussian_pm's constant 0.193 ("ensures that the Gaussian and sinc functions have the same widths"): at x_half = sqrt(ln 2 / 0.193)
-   the Gaussian is exactly 1/2 and the sinc is 1/2 to 2e-4 — the two approximations have the same half width in amplitude *)
-Theorem C05_gaussian_sinc_same_half_width :
-  gaussian_pm_gen x_half = 1 / 2 /\ Rabs (sinc_gen x_half - 1 / 2) <= 2e-4.
-Proof. exact pms_gaussian_sinc_same_half_width. Qed.
-Print Assumptions C05_gaussian_sinc_same_half_width.
-
-(* non-vacuity of the hypotheses above *)
-Example C05_phasematch_example : (0 < 1 /\ 0 < 1 /\ 0 <= 2 /\ 0 <= 3) /\ (fun _ _ : R => ((0, 0, 0) : vec)) 1 2 = (0, 0, 0).
-Proof. split; [repeat split; Lra.lra | reflexivity]. Qed.
